@@ -16,7 +16,7 @@ import argparse, difflib, hashlib, json, os, random, re, shutil, signal, subproc
 
 ROOT = os.path.abspath(os.path.join(os.path.dirname(os.path.realpath(__file__)), ".."))
 REPO = os.environ.get("VERIF_REPO", "/work2/mut/repo")
-OUT = os.path.join(ROOT, "build", "mut")
+OUT = os.environ.get("MUT_OUT") or os.path.join(ROOT, "build", "mut")      # MUT_OUT=build/mut2 keeps a later round apart
 MUTANTS = os.path.join(OUT, "mutants.jsonl")
 RESULTS = os.path.join(OUT, "results.jsonl")
 SURV = os.path.join(OUT, "survivors")
@@ -38,8 +38,30 @@ def load_props():
     return props
 
 
+# file -> properties that observe it although properties.jsonl does not anchor them there (round 1, REPORT §6/§8: nine of the
+# eighteen gaps were gaps of the map only).  properties.jsonl itself stays untouched; `--no-extra-map` switches this off.
+EXTRA_MAP = {
+    "pdf/src/error.rs": ["C15", "C18"],
+    "pdf/src/enc.rs": ["C12"],
+    "pdf/src/object/color.rs": ["C20", "C15", "C07"],
+    "pdf/src/object/stream.rs": ["C08", "C15"],
+    "pdf/src/object/types.rs": ["C08"],
+    "pdf/src/primitive.rs": ["C19", "C02", "C03", "C11"],
+    "pdf/src/parser/lexer/mod.rs": ["C08"],
+    "pdf/src/parser/lexer/str.rs": ["C08"],
+    "pdf/src/parser/parse_object.rs": ["C08"],
+    "pdf/src/encoding.rs": ["C20"],
+    "pdf/src/font.rs": ["C20"],
+}
+USE_EXTRA_MAP = True
+
+
 def props_for(path, props):
     ps = [p for p, fs in props.items() if path in fs]
+    if USE_EXTRA_MAP:
+        for p in EXTRA_MAP.get(path, []):
+            if p not in ps:
+                ps.append(p)
     if path.startswith(SAFETY_PREFIXES) or path in SAFETY_FILES:
         for p in ("C01", "C14"):
             if p not in ps:
@@ -548,7 +570,7 @@ def enumerate_mutants(seed):
     rng = random.Random(seed)
     per_file = {}
     for path in anchored_files(props):
-        src = open(os.path.join(REPO, path), encoding="utf-8").read()
+        src = committed_source(path)
         m, bl = mask(src)
         excl = excluded_spans(m)
         fns = functions(m)
@@ -625,8 +647,33 @@ def enumerate_mutants(seed):
     return out
 
 
+def changed_lines(diff):
+    minus = [l[1:].strip() for l in diff.split("\n") if l.startswith("-") and not l.startswith("---")]
+    plus = [l[1:].strip() for l in diff.split("\n") if l.startswith("+") and not l.startswith("+++")]
+    return minus, plus
+
+
+def context_key(file, function, operator, diff):
+    """identity of a mutation that survives unrelated edits of the file: (file, function, operator, text of the changed lines)"""
+    minus, plus = changed_lines(diff)
+    return hashlib.sha256("\0".join([file, function or "", operator, "\n".join(minus), "\n".join(plus)]).encode()).hexdigest()[:16]
+
+
+_SRC = {}
+
+
+def committed_source(path):
+    """the file as committed at REPO's HEAD (not the working file: somebody may be trying a patch there while a sweep runs)"""
+    if path not in _SRC:
+        p = subprocess.run(["git", "-C", REPO, "show", "HEAD:" + path], stdout=subprocess.PIPE)
+        _SRC[path] = p.stdout.decode("utf-8") if p.returncode == 0 else open(os.path.join(REPO, path), encoding="utf-8").read()
+    return _SRC[path]
+
+
 def mutant_diff(mu):
-    src = open(os.path.join(REPO, mu["file"]), encoding="utf-8").read()
+    if mu.get("diff"):
+        return mu["diff"]          # a mutant taken from the results of an earlier round (--from-results)
+    src = committed_source(mu["file"])
     new = src[:mu["start"]] + mu["replacement"] + src[mu["end"]:]
     return make_diff(mu["file"], src, new)
 
@@ -635,10 +682,22 @@ def cmd_gen(a):
     os.makedirs(OUT, exist_ok=True)
     ms = enumerate_mutants(a.seed)
     head = subprocess.run(["git", "-C", REPO, "rev-parse", "HEAD"], stdout=subprocess.PIPE).stdout.decode().strip()
+    prev = set()
+    for pth in (a.skip_results.split(",") if a.skip_results else []):
+        for l in open(pth):
+            if l.strip():
+                r = json.loads(l)
+                if r.get("diff"):
+                    prev.add(context_key(r["file"], r.get("function"), r["operator"], r["diff"]))
+    nprev = 0
     with open(MUTANTS, "w") as f:
         for mu in ms:
             mu["repo_head"] = head
+            mu["ckey"] = context_key(mu["file"], mu["function"], mu["operator"], mutant_diff(mu))
+            mu["earlier_round"] = mu["ckey"] in prev
+            nprev += mu["earlier_round"]
             f.write(json.dumps(mu) + "\n")
+    print("run in an earlier round (skipped by `run`):", nprev, "of", len(prev), "earlier results")
     byop, byfile = {}, {}
     for mu in ms:
         byop[mu["operator"]] = byop.get(mu["operator"], 0) + 1
@@ -765,6 +824,11 @@ def run_mutant(w, mu, stop_on_detect=False, check_jobs=1):
            "detail": mu["detail"], "diff": diff, "worker": w.dir, "compile": None, "tests": None, "checks": {}, "outcome": None}
     w.revert()
     p = subprocess.run(["git", "apply", "-"], cwd=w.repo, input=diff.encode(), stdout=subprocess.PIPE, stderr=subprocess.STDOUT)
+    if p.returncode != 0 and mu.get("diff"):
+        # an earlier round's diff on a library that moved on: accept shifted lines / one line of context
+        w.revert()
+        p = subprocess.run(["git", "apply", "-C1", "--recount", "-"], cwd=w.repo, input=diff.encode(), stdout=subprocess.PIPE, stderr=subprocess.STDOUT)
+        rec["applied_with_reduced_context"] = p.returncode == 0
     if p.returncode != 0:
         rec["outcome"] = "apply-failed"
         rec["note"] = p.stdout.decode()[-300:]
@@ -834,7 +898,17 @@ def run_mutant(w, mu, stop_on_detect=False, check_jobs=1):
 def cmd_run(a):
     os.makedirs(SURV, exist_ok=True)
     workers = [Worker(d) for d in a.workers.split(",")]
-    ms = load_mutants()
+    if a.from_results:
+        props = load_props()
+        ms = []
+        for l in open(a.from_results):
+            if l.strip():
+                r = json.loads(l)
+                if r.get("diff"):
+                    ms.append({"id": r["id"], "n": r["n"], "file": r["file"], "line": r["line"], "function": r.get("function", ""), "operator": r["operator"],
+                               "detail": r.get("detail", ""), "diff": r["diff"], "props": props_for(r["file"], props)})
+    else:
+        ms = load_mutants()
     done = load_results()
     if a.only_files:
         keep = set(a.only_files.split(","))
@@ -843,17 +917,20 @@ def cmd_run(a):
         keep = set(a.ids.split(","))
         ms = [m for m in ms if m["id"] in keep or str(m["n"]) in keep]
     results_path = RESULTS
+    if a.results_name:
+        results_path = os.path.join(OUT, a.results_name)
+        done = {json.loads(l)["id"]: {} for l in open(results_path) if l.strip()} if os.path.exists(results_path) else {}
     if a.all_props:
         # second pass over chosen mutants (e.g. the gaps): every one of the 20 checks, to tell a gap of the framework from a
         # gap of the file -> property map in properties.jsonl; kept apart from the sweep's results
-        results_path = os.path.join(OUT, "results_allprops.jsonl")
+        results_path = os.path.join(OUT, a.results_name or "results_allprops.jsonl")
         allp = sorted(load_props())
         done = {}
         if os.path.exists(results_path):
             done = {json.loads(l)["id"]: {} for l in open(results_path) if l.strip()}
         for m in ms:
             m["props"] = allp
-    todo = [m for m in ms if m["id"] not in done]
+    todo = [m for m in ms if m["id"] not in done and (a.ids or a.all_props or not m.get("earlier_round"))]
     if a.limit:
         todo = todo[:a.limit]
     lock = threading.Lock()
@@ -879,7 +956,7 @@ def cmd_run(a):
                     f.write(json.dumps(rec) + "\n")
                 if rec.get("tests"):
                     state["passing"] += 1
-                if rec["outcome"] == "survived" and not a.all_props:
+                if rec["outcome"] == "survived" and not a.all_props and not a.results_name:
                     open(os.path.join(SURV, "%04d.diff" % mu["n"]), "w").write(rec["diff"])
                 ck = " ".join("%s=%s" % (p, c["exit"]) for p, c in rec.get("checks", {}).items())
                 print("[%s] #%04d %-14s %s:%d %-9s %-40s %ss %s" % (time.strftime("%H:%M:%S"), mu["n"], rec["outcome"], mu["file"].replace("pdf/src/", ""), mu["line"],
@@ -1013,11 +1090,11 @@ def cmd_report(a):
     L = []
     w = L.append
     head = res[0].get("diff", "") and subprocess.run(["git", "-C", REPO, "rev-parse", "--short", "HEAD"], stdout=subprocess.PIPE).stdout.decode().strip()
-    w("# Mutation sweep of the pdf-rs verification framework\n")
-    w("Driver: `tools/mutate.py` (seed 20260929, library at `%s`, framework branch `b/mut`, quick tier, check seed 20260927).  "
+    w("# " + a.title + "\n")
+    w(("Driver: `tools/mutate.py` (seed 20260929, library at `%s`, framework branch `" + subprocess.run(["git", "-C", ROOT, "rev-parse", "--abbrev-ref", "HEAD"], stdout=subprocess.PIPE).stdout.decode().strip() + "`, quick tier, check seed 20260927).  "
       "A mutant is **detected** when at least one relevant `bin/vp check Cxx` exits 1, **survived** otherwise; relevant = every property whose "
-      "`anchors.files` names the mutated file, plus C01 and C14 for files under `parser/`, `object/`, `enc.rs`, `font.rs`, `crypt.rs`, `file.rs`, `backend.rs`, `xref.rs`.  "
-      "The unchanged tree was checked first in all three worker worktrees: all 20 checks exit 0 (`mutation/baseline.json`).\n" % head)
+      "`anchors.files` names the mutated file" + (" or that `EXTRA_MAP` in tools/mutate.py adds for it" if USE_EXTRA_MAP and a.art_prefix != "mutation" else "") + ", plus C01 and C14 for files under `parser/`, `object/`, `enc.rs`, `font.rs`, `crypt.rs`, `file.rs`, `backend.rs`, `xref.rs`.  "
+      "The unchanged tree was checked first in all three worker worktrees: all 20 checks exit 0 (`" + a.art_prefix + "/baseline.json`).\n") % head)
     w("## 1. Totals\n")
     w("| | mutants |\n|---|---|")
     w("| generated (sites enumerated over 23 anchored files) | %d |" % len(load_mutants()))
@@ -1039,7 +1116,7 @@ def cmd_report(a):
       "Detection rate over the non-equivalent mutants (detected / (detected + gaps + undemonstrated)): **%.1f %%**.\n"
       % (nG, nE, nU, 100.0 * len(det) / max(1, len(det) + nG + nU)))
     if allp:
-        w("Every gap was run a second time against **all 20 checks** (`mutation/results_allprops.jsonl`): %d of the %d gaps are detected by a property "
+        w("Every gap was run a second time against **all 20 checks** (`" + a.art_prefix + "/results_allprops.jsonl`): %d of the %d gaps are detected by a property "
           "that `properties.jsonl` does not map to the mutated file (a gap of the file → property map, not of the checks); %d are detected by no check at all.  "
           "With the complete suite run on every mutant the detection rate over non-equivalent mutants would be (%d + %d) / %d = **%.1f %%**.\n"
           % (len(map_gaps), len(gaps), len(gaps) - len(map_gaps), len(det), len(map_gaps), len(det) + nG + nU, 100.0 * (len(det) + len(map_gaps)) / max(1, len(det) + nG + nU)))
@@ -1120,7 +1197,7 @@ def cmd_report(a):
     w("\n## 5. Survivors\n")
     w("One paragraph per survivor.  **EQUIVALENT (a)** = no behaviour change at all (dead code, performance, message text); **EQUIVALENT (b)** = behaviour changes only in "
       "functionality none of the 20 statements speaks about, and no panic/hang is introduced; **GAP** = a property statement is violated on an input of its domain, "
-      "demonstrated by a Rust test that passes on the unchanged crate and fails on the mutant (`mutation/demos/mut_NNNN.rs`).  Diffs: `mutation/survivors/NNNN.diff`.\n")
+      "demonstrated by a Rust test that passes on the unchanged crate and fails on the mutant (`%s/demos/mut_NNNN.rs`).  Diffs: `%s/survivors/NNNN.diff`.\n" % (a.art_prefix, a.art_prefix))
     for r in surv:
         d = ana.get(r["n"])
         change = [l for l in r["diff"].split("\n") if (l.startswith("-") or l.startswith("+")) and not l.startswith(("---", "+++"))]
@@ -1138,7 +1215,7 @@ def cmd_report(a):
             if cb is not None:
                 w("  *All 20 checks on this mutant:* " + ("detected by **%s** (not mapped to `%s` in properties.jsonl)." % (", ".join(cb), r["file"]) if cb else "no check detects it."))
             dm = d.get("demo") or {}
-            w("  *Demo:* `mutation/demos/%s` — unchanged: %s; mutant: %s.  *Why missed:* %s  *Proposal:* %s" % (
+            w("  *Demo:* `" + a.art_prefix + "/demos/%s` — unchanged: %s; mutant: %s.  *Why missed:* %s  *Proposal:* %s" % (
                 os.path.basename(dm.get("test", "?")), dm.get("original", "?"), str(dm.get("mutant", "?"))[:300], d.get("why_missed", ""), d.get("proposal", "")))
         w("")
 
@@ -1160,20 +1237,63 @@ def cmd_report(a):
     print("wrote", os.path.join(OUT, "REPORT.md"), "survivors", len(surv), "analysed", sum(1 for r in surv if r["n"] in ana), "gaps", nG)
 
 
+def cmd_cumulative(a):
+    """totals and per-property table over several rounds (markdown on stdout)"""
+    tot, pp = {}, {}
+    verd = {"GAP": 0, "EQUIVALENT": 0, "other": 0}
+    for d in a.rounds:
+        for l in open(os.path.join(d, "results.jsonl")):
+            if not l.strip():
+                continue
+            r = json.loads(l)
+            tot[r["outcome"]] = tot.get(r["outcome"], 0) + 1
+            if r.get("tests"):
+                for p, c in r["checks"].items():
+                    q = pp.setdefault(p, [0, 0, 0, 0])
+                    q[0] += 1
+                    if c["exit"] == 1:
+                        q[1] += 1
+                        q[2 if c["concrete"] else 3] += 1
+            if r["outcome"] == "survived":
+                f = os.path.join(d, "analysis", "%04d.json" % r["n"])
+                v = json.load(open(f)).get("verdict") if os.path.exists(f) else None
+                verd[v if v in verd else "other"] += 1
+    n = sum(tot.values())
+    passing = tot.get("detected", 0) + tot.get("survived", 0)
+    print("| | all rounds |\n|---|---|")
+    print("| run | %d |\n| not compiling | %d |\n| killed by the repository's own tests | %d |\n| apply-failed / driver errors | %d |" % (
+        n, tot.get("not-compiling", 0), tot.get("killed-by-tests", 0), n - passing - tot.get("not-compiling", 0) - tot.get("killed-by-tests", 0)))
+    print("| **compiled and test-passing** | **%d** |\n| detected | %d (%.1f %%) |\n| survived | %d |" % (passing, tot.get("detected", 0), 100.0 * tot.get("detected", 0) / max(1, passing), tot.get("survived", 0)))
+    print("| survivors: equivalent / gaps / unanalysed | %d / %d / %d |" % (verd["EQUIVALENT"], verd["GAP"], verd["other"]))
+    print("| detection over non-equivalent mutants | %.1f %% |" % (100.0 * tot.get("detected", 0) / max(1, tot.get("detected", 0) + verd["GAP"] + verd["other"])))
+    print("\n| property | run | exit 1 | rate | concrete | proof/tie only |\n|---|---|---|---|---|---|")
+    for p in sorted(pp):
+        q = pp[p]
+        print("| %s | %d | %d | %.0f %% | %d | %d |" % (p, q[0], q[1], 100.0 * q[1] / q[0], q[2], q[3]))
+
+
 def main():
     ap = argparse.ArgumentParser()
     sub = ap.add_subparsers(dest="cmd", required=True)
     g = sub.add_parser("gen"); g.add_argument("--seed", type=int, default=20260929); g.add_argument("--preview", type=int, default=500)
+    g.add_argument("--skip-results", default="", help="results.jsonl of earlier rounds: their mutants are marked and not run again")
     r = sub.add_parser("run"); r.add_argument("--workers", required=True); r.add_argument("--limit", type=int, default=0)
     r.add_argument("--target-pass", type=int, default=0); r.add_argument("--only-files", default=""); r.add_argument("--ids", default="")
     r.add_argument("--stop-on-detect", action="store_true"); r.add_argument("--check-jobs", type=int, default=1)
     r.add_argument("--all-props", action="store_true")
+    r.add_argument("--from-results", default="", help="take the mutants (with their diffs) from an earlier round's results.jsonl")
+    r.add_argument("--results-name", default="", help="file name under the output directory for this run's records")
     b = sub.add_parser("baseline"); b.add_argument("--workers", required=True)
     s = sub.add_parser("show"); s.add_argument("n")
     sub.add_parser("stats")
-    sub.add_parser("report")
+    rp = sub.add_parser("report"); rp.add_argument("--art-prefix", default="mutation"); rp.add_argument("--title", default="Mutation sweep of the pdf-rs verification framework")
+    cu = sub.add_parser("cumulative"); cu.add_argument("rounds", nargs="+", help="DIR holding results.jsonl and analysis/NNNN.json, one per round")
+    ap.add_argument("--no-extra-map", action="store_true")
     a = ap.parse_args()
-    {"gen": cmd_gen, "run": cmd_run, "baseline": cmd_baseline, "show": cmd_show, "stats": cmd_stats, "report": cmd_report}[a.cmd](a)
+    if a.no_extra_map:
+        global USE_EXTRA_MAP
+        USE_EXTRA_MAP = False
+    {"gen": cmd_gen, "run": cmd_run, "baseline": cmd_baseline, "show": cmd_show, "stats": cmd_stats, "report": cmd_report, "cumulative": cmd_cumulative}[a.cmd](a)
 
 
 if __name__ == "__main__":
